@@ -114,6 +114,23 @@ Example rx_fix_run_computed :
   /\ r_par (out_st out) = rx_par_ok /\ out_fail out = false /\ r_unrec (out_st out) = 0 /\ r_rec (out_st out) = 3.
 Proof. vm_compute. repeat split; reflexivity. Qed.
 
+
+(* the time-stamps: the two files of the example have no twin on their disk *)
+Lemma rx_uniq j f p i b : slot_of rx_c p j = SFile f i b -> uniq_stamp rx_c j f.
+Proof.
+  intros H d h Hd Hin _ _ _. rx_inv H; cbn in Hd; injection Hd as Hd; subst d; destruct Hin as [E|[]]; subst h; reflexivity.
+Qed.
+Example rx_fix_run_stamps :
+  let out := check_run x_hashf x_padz x_truncf x_bs 2 false x_newino 999 rx_fix rx_c rx_par rx_fs [] (seq 0 3) in
+  forall p j f i b, slot_of rx_c p j = SFile f i b ->
+    exists g, fs_find (r_fs (out_st out)) j (cf_name f) = Some g
+              /\ ((ff_mtime g = cf_mtime f /\ ff_nsec g = cf_nsec f) \/ fs_find rx_fs j (cf_name f) = Some g).
+Proof.
+  cbn zeta. intros p j f i b H.
+  apply (run_fix_stamps x_hashf x_padz x_truncf x_bs 2 false x_newino 999 rx_fix rx_c 3 rx_fs rx_par rx_vs []
+           x_plain_fix eq_refl rx_synced_array eq_refl (le_n 2) rx_no_larger rx_recoverable_fix rx_objs_ok p j f i b H (rx_uniq j f p i b H)).
+Qed.
+
 (* ... and a following check is quiet *)
 Example rx_fix_then_check_quiet :
   let out := check_run x_hashf x_padz x_truncf x_bs 2 false x_newino 999 rx_fix rx_c rx_par rx_fs [] (seq 0 3) in
